@@ -365,7 +365,7 @@ theorem outsideBoundary_asRaw (b : Option Dir) (d : Dir) :
     simp only [outsideBoundary, Option.map_some, asRaw_isPrefixOf, Bool.not_eq_eq_eq_not, Bool.not_true,
       Option.some.injEq, exists_eq_left']
     rw [← List.isPrefixOf_iff_prefix]
-    simp
+    cases List.isPrefixOf bd d <;> simp
 
 theorem walk_canon (fs : FS) (hwf : fs.WF = true) (b : Option Dir) :
     ∀ (n : Nat) (d : Dir), d.length + 1 = n → dirOK fs d →
